@@ -11,6 +11,17 @@ import DclabModel.DriveUtil
     cnew <maxlen>                   fresh LazyContourList
     cget <i>                        → `some <j> idx <indices>` (j = which contour was returned)
     arr <alias|readOnly|copy> <data> ; r | p<i>=<v> …   → outputs of the ownership automaton
+    fcap <n>                        fresh file system, empty lru table of capacity n
+    fwrite <p> <bytes> <mtime> | fremove <p> | frebind <spelling> <p>      → ok
+    fhash <spelling> <blocksize> <count>      (`- -` = called without these keyword arguments)
+                                    → `raise` | `hit|miss size=<entries> v=<bytes fed to md5>`
+    fcheck                          → `fsrun=<same|diff> spec=<same|diff> stampok=<yes|no>`: fsRun over the whole
+                                      history vs the step-wise answers, vs fsSpec; is the history inside StampOK
+    own <alias|readOnly|copy> <cap> <data0>|<data1>|… ; c<k> | p<r>.<i>=<v> …
+                                    → ownership automaton of memoised results (`orun`): `f k = data_k`;
+                                      `c<k>` = call with argument k, `p<r>.<i>=<v>` = write v at position i of
+                                      the r-th result received; answers `v<id>:<data>` | ok | ro | none
+    (`call` also reports `tf=<hit|miss>`: the same call on the policy table `tcall fifo`)
 -/
 open DclabModel.Cache DclabModel.DriveUtil
 
@@ -50,6 +61,19 @@ structure D where
   seen : List (List Nat × Call) := []          -- old-encoding keys seen so far
   dq : Deques Nat := { indices := [], contours := [] }
   dm : Nat := 0
+  ft : List (List Tok × Call) := []           -- the FIFO policy table (`tcall fifo`)
+  fcap : Nat := 100
+  fs : FsSt Nat Nat := { files := fun _ => none, res := fun x => x }
+  ftab : List ((Nat × (Nat × Nat) × Option (Nat × Nat)) × List Nat) := []
+  fops : List (FsOp Nat Nat (Option (Nat × Nat))) := []           -- newest first
+  fouts : List (Option (List Nat)) := []                 -- newest first
+
+def stampOKb (calls : List (FCall Nat (Option (Nat × Nat)))) : Bool :=
+  calls.all fun a => calls.all fun b =>
+    !(a.1 == b.1 && stampOf a.2.1 == stampOf b.2.1) || a.2.1.bytes == b.2.1.bytes
+
+def fsOp (d : D) (op : FsOp Nat Nat (Option (Nat × Nat))) : D × String :=
+  ({ d with fs := fsApply d.fs op, fops := op :: d.fops }, "ok")
 
 def showAOut : AOut → String
   | .arr xs => "arr " ++ showNats xs
@@ -64,10 +88,26 @@ def parseAOp (s : String) : Option AOp :=
     | _ => none
   else none
 
+def parseOOp (s : String) : Option (OOp Nat) :=
+  if s.startsWith "c" then (s.drop 1).toString.toNat?.map .call
+  else if s.startsWith "p" then
+    match ((s.drop 1).toString).splitOn "=" with
+    | [ri, v] => match ri.splitOn "." with
+      | [r, i] => do let r ← r.toNat?; let i ← i.toNat?; let v ← v.toNat?; pure (.poke r i v)
+      | _ => none
+    | _ => none
+  else none
+
+def showOOut : OOut → String
+  | .val id xs => s!"v{id}:" ++ (if xs.isEmpty then "-" else showNats xs)
+  | .ok => "ok"
+  | .readOnlyError => "ro"
+  | .noResult => "none"
+
 def handle (d : D) (line : String) : D × String :=
   match words line with
   | ["cap", n] => match n.toNat? with
-    | some n => ({ d with cap := n, st := { store := [], keys := [] }, seen := [] }, "ok")
+    | some n => ({ d with cap := n, st := { store := [], keys := [] }, seen := [], ft := [] }, "ok")
     | none => (d, "bad-op")
   | "call" :: name :: doc :: file :: rest =>
     match parseList name, parseList doc, parseList file with
@@ -77,11 +117,14 @@ def handle (d : D) (line : String) : D × String :=
         let cfg : Cfg Call (List Tok) Call := { f := id, enc := encCall, cap := d.cap }
         let hit := (lookup (encCall c) d.st.store).isSome
         let (st', _) := call cfg d.st c
+        let thit := (lookup (encCall c) d.ft).isSome
+        let ft' := (tcall fifo cfg d.ft c).1
         let ok := encCallOld c
         let collides := d.seen.any (fun p => p.1 == ok && p.2 != c)
-        ({ d with st := st', seen := (ok, c) :: d.seen },
+        ({ d with st := st', seen := (ok, c) :: d.seen, ft := ft' },
          (if hit then "hit" else "miss") ++ s!" keys={st'.keys.length} old=" ++
-           (if collides then "collides" else "distinct"))
+           (if collides then "collides" else "distinct") ++
+           (if thit then " tf=hit" else " tf=miss") ++ s!" tkeys={ft'.length}")
       | none => (d, "bad-op")
     | _, _, _ => (d, "bad-op")
   | ["cnew", m] => match m.toNat? with
@@ -99,6 +142,55 @@ def handle (d : D) (line : String) : D × String :=
     match p, parseList data, ops.mapM parseAOp with
     | some p, some data, some ops => (d, joinWith " | " ((arun p data ops).map showAOut))
     | _, _, _ => (d, "bad-op")
+  | "own" :: pol :: cap :: datas :: ";" :: ops =>
+    let p : Option Policy := match pol with
+      | "alias" => some .alias | "readOnly" => some .readOnly | "copy" => some .copy | _ => none
+    match p, cap.toNat?, (datas.splitOn "|").mapM parseList, ops.mapM parseOOp with
+    | some p, some cap, some ds, some ops =>
+      let cfg : Cfg Nat Nat (List Nat) := { f := fun k => (ds[k]?).getD [], enc := id, cap := cap }
+      (d, joinWith " " ((orun p cfg oinit ops).map showOOut))
+    | _, _, _, _ => (d, "bad-op")
+  | ["fcap", n] => match n.toNat? with
+    | some n => ({ d with fcap := n, fs := { files := fun _ => none, res := fun x => x },
+                          ftab := [], fops := [], fouts := [] }, "ok")
+    | none => (d, "bad-op")
+  | ["fwrite", p, b, m] => match p.toNat?, parseList b, m.toNat? with
+    | some p, some b, some m => fsOp d (.write p b m)
+    | _, _, _ => (d, "bad-op")
+  | ["fremove", p] => match p.toNat? with
+    | some p => fsOp d (.remove p)
+    | none => (d, "bad-op")
+  | ["frebind", sp, p] => match sp.toNat?, p.toNat? with
+    | some sp, some p => fsOp d (.rebind sp p)
+    | _, _ => (d, "bad-op")
+  | ["fhash", sp, bs, cnt] =>
+    let ar : Option (Option (Nat × Nat)) :=
+      if bs = "-" ∧ cnt = "-" then some none
+      else match bs.toNat?, cnt.toNat? with
+        | some b, some c => some (some (b, c))
+        | _, _ => none
+    match sp.toNat?, ar with
+    | some sp, some ar =>
+      let op : FsOp Nat Nat (Option (Nat × Nat)) := .hash sp ar
+      match d.fs.files (d.fs.res sp) with
+      | none => ({ d with fops := op :: d.fops, fouts := none :: d.fouts }, "raise")
+      | some f =>
+        let cfg := fileCfg (P := Nat) hashedBytes d.fcap
+        let a : FCall Nat (Option (Nat × Nat)) := (d.fs.res sp, f, ar)
+        let hit := (lookup (cfg.enc a) d.ftab).isSome
+        let r := tcall lru cfg d.ftab a
+        ({ d with ftab := r.1, fops := op :: d.fops, fouts := some r.2 :: d.fouts },
+         (if hit then "hit" else "miss") ++ s!" size={r.1.length} v=" ++
+           (if r.2.isEmpty then "-" else showNats r.2))
+    | _, _ => (d, "bad-op")
+  | ["fcheck"] =>
+    let ops := d.fops.reverse
+    let st0 : FsSt Nat Nat := { files := fun _ => none, res := fun x => x }
+    let run := fsRun lru hashedBytes d.fcap st0 [] ops
+    let spec := fsSpec hashedBytes st0 ops
+    (d, "fsrun=" ++ (if run == d.fouts.reverse then "same" else "diff") ++
+        " spec=" ++ (if run == spec then "same" else "diff") ++
+        " stampok=" ++ (if stampOKb (fsCalls st0 ops) then "yes" else "no"))
   | _ => (d, "bad-op")
 
 def main : IO Unit := mainLoop ({} : D) handle
